@@ -110,14 +110,17 @@ class Schema(object):
 
     def nav_menu(self, kind):
         '''All (to_kind, rel, phrase) navigations defined from *kind*: direct
-        ones and the two-hop form through an association class.'''
+        ones and the two-hop form through an association class (a class that
+        formalises two different associations carrying the same number).'''
         menu = []
         for (to, rel, ph, _, _) in self.direct(kind):
             if (to, rel, ph) not in menu:
                 menu.append((to, rel, ph))
-        for (mid, rel, ph, _, _) in self.direct(kind):
-            for (to, rel2, ph2, _, _) in self.direct(mid):
-                if rel2 == rel and ph2 == ph and \
+        for (mid, rel, ph, a1, t1) in self.direct(kind):
+            if t1 != 'bwd':
+                continue        # first hop must arrive at the formalising (association) class
+            for (to, rel2, ph2, a2, t2) in self.direct(mid):
+                if rel2 == rel and ph2 == ph and t2 == 'fwd' and a2 != a1 and \
                    not any(k[0].upper() == to.upper() and k[1] == rel and k[2] == ph for k in menu):
                     menu.append((to, rel, ph))
         return menu
@@ -178,6 +181,40 @@ class Ref(object):
         self.insts.append(inst)
         self.order[kind].append(inst.idx)
         return inst.idx
+
+    def load(self, rows):
+        '''
+        What loading defines: rows = [(kind, {attr: value})] in statement order;
+        a referring row is linked to a referred row exactly when all its
+        referential values are non-null and equal the identifying values.
+        Links are made in model order (per association; referring rows in pool
+        order, referred rows in pool order).  Referential values are dropped.
+        '''
+        raw = []
+        for kind, values in rows:
+            kind = self._kind(kind)
+            refs = self.schema.referentials(kind)
+            vals = {}
+            for name, ty in self.schema.attrs(kind):
+                v = values.get(name)
+                if name not in refs:
+                    vals[name] = NULLS[ty.upper()] if v is None else v
+            inst = RefInst(len(self.insts), kind, vals)
+            self.insts.append(inst)
+            self.order[kind].append(inst.idx)
+            raw.append(dict(values))
+        types = dict((k.upper(), dict((n, t) for n, t in a)) for k, a in self.schema.classes)
+        for ai, a in enumerate(self.schema.assocs):
+            for s in self.order[self._kind(a.src)]:
+                key = [raw[s].get(k) for k in a.skeys]
+                if any(is_null(v, types[a.src.upper()][k]) for k, v in zip(a.skeys, key)):
+                    continue
+                for t in self.order[self._kind(a.tgt)]:
+                    tkey = [raw[t].get(k) for k in a.tkeys]
+                    if any(is_null(v, types[a.tgt.upper()][k]) for k, v in zip(a.tkeys, tkey)):
+                        continue
+                    if tkey == key:
+                        self.force_link(ai, s, t)
 
     def _kind(self, kind):
         for k in self.schema.kinds():
